@@ -606,8 +606,28 @@ func init() {
 			rc := &RunConfig{Property: "C07", Profile: "stress", Seed: seed, Ctl: sampleCtl(r), MapOrder: r.IntN(2) == 0,
 				Lagfree: r.IntN(3) == 0, MidSched: r.IntN(2) == 0}
 			rc.Ctl.TCPConfigMap = r.IntN(5) == 0
+			w := map[string]int{"pod_vanish": 3}
+			for k, v := range defaultWeights {
+				w[k] = v
+			}
 			rc.World, rc.Ops = GenerateRun(seed, GenOptions{Sparse: r.IntN(3) == 0, ExcludeIngressKeys: []string{"waf", "cert-signer"}, MinOps: mn, MaxOps: mx, TCPConfigMap: rc.Ctl.TCPConfigMap,
-				QuiesceEvery: pickInt(r, 3, 6), KeysPerRun: pickInt(r, 5, 9, 14)})
+				QuiesceEvery: pickInt(r, 3, 6), KeysPerRun: pickInt(r, 5, 9, 14), W: w})
+			return rc
+		}})
+	// static worlds: what only a history can break is lifted (strict-host among them)
+	register(&Profile{Name: "stress-static", Prop: "C07", Weight: 1,
+		Oracles: OracleSet{Property: "C07", Loadable: true},
+		Build: func(seed uint64, tier string) *RunConfig {
+			r := cfgRng(seed)
+			ctl := sampleCtl(r)
+			if r.IntN(2) == 0 {
+				ctl.DefaultService = "a/s1"
+			}
+			lift := []string{"no_dup_paths", "no_new_default_backend", "ingress_hosts_fixed", "unique_host_claims", "no_strict_host"}
+			rc := &RunConfig{Property: "C07", Profile: "stress-static", Seed: seed, Ctl: ctl, MapOrder: r.IntN(2) == 0, Lagfree: true, IgnoreAvoid: lift}
+			rc.World, rc.Ops = GenerateRun(seed, GenOptions{Sparse: r.IntN(2) == 0, NoOps: true, MaxIngresses: pickInt(r, 4, 6, 9), KeysPerRun: pickInt(r, 5, 9, 14), AnnChance: 2,
+				ExcludeIngressKeys: []string{"waf", "cert-signer"}, IgnoreAvoid: lift, ForceIngressKeys: []string{"redirect-to"},
+				InitialGlobal: map[string]string{"strict-host": []string{"true", "true", "false"}[r.IntN(3)]}})
 			return rc
 		}})
 }
